@@ -649,6 +649,10 @@ func main() {
 		for k := range o.Outcomes {
 			r.Outcome(k)
 		}
+		if scen%97 == 1 {
+			// a few scenarios as they were explored: which cache, which bounds, how many complete executions, what was observed at their ends
+			r.AddSample(map[string]any{"history_index_in_its_plan": o.Index, "cache": o.Flavor, "deviation_bounds": o.Mode, "eager_default_order": o.Eager, "executions": o.Executions, "choice_points": o.Points, "final_observations": o.Outcomes})
+		}
 		for _, v := range o.Violations {
 			// recover the history from the message-independent data: the worker's scenario name is in Msg; keep choices
 			r.Fail(&hx.Failure{Sig: v.Sig, Msg: v.Msg + fmt.Sprintf(" [cache=%s mode=%s eager=%v]", o.Flavor, o.Mode, o.Eager), Case: Case{Flavor: o.Flavor, Mode: o.Mode, Eager: o.Eager, Choices: v.Choices, Schedule: v.Schedule,
